@@ -4816,14 +4816,18 @@ def unused_sentinel_params(tree):
                         supplied = True
             if supplied:
                 continue
-            if any(isinstance(n, ast.Name) and n.id == p_.arg and isinstance(
+            other_loads = [n for n in ast.walk(fn) if isinstance(
+                n, ast.Name) and n.id == p_.arg and isinstance(
                     n.ctx, ast.Load) and not any(
                         isinstance(t, ast.Compare) and len(t.ops) == 1
                         and isinstance(t.ops[0], (ast.Is, ast.IsNot))
                         and (t.left is n or t.comparators[0] is n)
-                        for t in ast.walk(fn))
-                    and not _assigned_before_use(fn, p_.arg)
-                    for n in ast.walk(fn)):
+                        for t in ast.walk(fn))]
+            rebound_ = any(isinstance(n, ast.Name) and n.id == p_.arg
+                           and isinstance(n.ctx, (ast.Store, ast.Del))
+                           for n in ast.walk(fn))
+            if other_loads and not _assigned_before_use(fn, p_.arg) and \
+                    rebound_:
                 continue
             S = [d_ for q_, d_ in list(zip(
                 pos[len(pos) - len(a.defaults):], a.defaults)) + list(zip(
@@ -4835,6 +4839,11 @@ def unused_sentinel_params(tree):
                           p_.arg, S}]:
                 _replace_in(fn, t, ast.Constant(
                     value=isinstance(t.ops[0], ast.Is)))
+            if not rebound_:
+                # (never supplied, never re-bound: the parameter *is* the
+                # sentinel wherever else it is read)
+                for n in other_loads:
+                    n.id = S
             if kind == "kw":
                 i = a.kwonlyargs.index(p_)
                 del a.kwonlyargs[i]
@@ -6657,3 +6666,35 @@ def sentinel_get_tests(tree):
     if done[0]:
         ast.fix_missing_locations(tree)
     return done[0]
+
+
+def drop_dead_tails(tree):
+    """statements behind an unconditional return/raise/break/continue of
+    the same block are never run"""
+    done = False
+    for par in ast.walk(tree):
+        for fld in ("body", "orelse", "finalbody"):
+            blk = getattr(par, fld, None)
+            if not (isinstance(blk, list) and blk and isinstance(
+                    blk[0], ast.stmt)):
+                continue
+            # `if True: A else: B` -> A
+            i = 0
+            while i < len(blk):
+                st = blk[i]
+                if isinstance(st, ast.If) and isinstance(
+                        st.test, ast.Constant) and isinstance(
+                        st.test.value, bool):
+                    blk[i:i + 1] = (st.body if st.test.value
+                                    else st.orelse) or [
+                        ast.copy_location(ast.Pass(), st)]
+                    done = True
+                    continue
+                i += 1
+            for i, st in enumerate(blk[:-1]):
+                if isinstance(st, (ast.Return, ast.Raise, ast.Break,
+                                   ast.Continue)):
+                    del blk[i + 1:]
+                    done = True
+                    break
+    return done
